@@ -153,6 +153,11 @@ def main(prop: str, tier: str, rep: common.Reporter | None = None, finish: bool 
         rep.cov['repimpl_design_check'] = ri
         rep.cov['states'] += ri['states']
         rep.cov['transitions'] += ri['transitions']
+        rb = repimpl.bind(rep, tier)
+        rep.cov['repimpl_bound_to_code'] = rb
+        rep.cov['states'] += rb['states']
+        rep.cov['transitions'] += rb['transitions']
+        rep.cov['traces_validated_against_impl'] += rb['behaviours']
     if finish and own:
         return rep.finish()
     return rep
